@@ -164,7 +164,7 @@ def verify(ctx, cid, c, lev, alg, res, report):
                 report("C03", "obs_stdev_correlated_cluster" if blk_of[k] else "obs_stdev", "stdev of adjusted obs %d: %r expected %r" % (k + 1, o["stdev"], math.sqrt(max(q, 0))))
 
 
-def check(ctx, want, cases=None, levs=None, max_networks=None):
+def check(ctx, want, cases=None, levs=None, max_networks=None, alias=None):
     if cases is None:
         r = lsq.gen_cases(ctx, "_genlev_%s.cfg" % ctx.pid, lsq.tier_consts(ctx))
         cases, levs = r.cases, r.lev
@@ -189,6 +189,13 @@ def check(ctx, want, cases=None, levs=None, max_networks=None):
         bycase.setdefault(cid, []).append((alg, cls, run))
 
         def report(prop, chk, msg, cid=cid, c=c, alg=alg, text=text):
+            if alias and prop in alias:
+                prop = alias[prop]
+                if prop == ctx.pid:
+                    feat = "singular" if c["rank"] < c["n"] else "regular"
+                    ctx.violation("levelling|%s|%s|%s" % (chk, alg, feat), "levelling network %s, --algorithm %s: %s" % (cid, alg, msg),
+                                  replay={"gkf": text, "algorithm": alg, "case": c})
+                return
             if prop in want and prop == ctx.pid:
                 feat = "singular" if c["rank"] < c["n"] else "regular"
                 ctx.violation("levelling|%s|%s|%s" % (chk, alg, feat), "levelling network %s, --algorithm %s: %s" % (cid, alg, msg),
